@@ -90,6 +90,8 @@ CLASSES = {
         "fields": {"INF": "float", "model": "Opaque[ORSolver]", "names": "DefaultDict[str, int, 'int']",
                    "objective": "LinExpr"},
     },
+    # the builtin slice(start, stop) received by Gene.__getitem__ for gene[a:b] (no step, both bounds given)
+    "slice": {"kind": "rec", "fields": {"start": "int", "stop": "int"}},
     "AlignedRead": {"kind": "opaque"},
     # the four pysam.AlignedSegment attributes aldy.sam._in_region reads (reference_name is None for an
     # unaligned read; reference_end is None when the read has no CIGAR)
